@@ -26,6 +26,7 @@ RULE += (' Every eleventh source is a netCDF file as other tools write it, made 
 RULE += (' Those files also carry a variable with missing cells but no missing code of its own (netCDF default fill value), a variable with values outside its valid_range, and - for the NETCDF4 flavour - a netCDF string variable.')
 RULE += (' Packed variables of the netCDF4-written sources carry both packing attributes, add_offset only, or scale_factor only.')
 RULE += (' One case in fifty saves variables of more than a megabyte (a float32 matrix of 520-700 x 500 and a masked float64 record variable).')
+RULE += (' One plain case in six carries attribute values held as 0-d arrays of float32 / int32 / int16.')
 ASSUMPTIONS = [
     'classic-model flavours cannot hold int64/unsigned: such files are '
     'outside the domain there (must raise or round-trip)',
@@ -103,6 +104,15 @@ def gen(rng, idx, tier, seed):
             rng, dtypes=dts, allow_char=True, allow_unlimited=True,
             # the netCDF-4 model allows several unlimited dimensions
             second_unlimited=(fmt == 'NETCDF4' and idx % 8 == 3))}
+    if 'core' in fs and idx % 6 == 1:
+        # attribute values held as 0-d arrays of the narrower types (header
+        # numbers as a reader stores them)
+        fs['core']['attrs'] += [['XCELL0', {'np0': 'f4', 'v': 0.1}],
+                                ['NTHIK0', {'np0': 'i4', 'v': 3}]]
+        if fs['core']['vars']:
+            fs['core']['vars'][0]['attrs'] = list(
+                fs['core']['vars'][0]['attrs']) + [
+                    ['flag0', {'np0': 'i2', 'v': 7}]]
     if 'core' in fs:
         fs['core']['sized_typecodes'] = bool(idx % 5 == 2)
         fs['core']['values_kw'] = bool(idx % 5 == 4)
